@@ -415,6 +415,9 @@ fn blame(tree: &Expr, aspect: &str, acc: &mut Acc) -> String {
 }
 
 pub fn check_tree(tree: &Expr, text_route: bool, acc: &mut Acc) {
+    if tree.depth() > 20 {
+        speclib::report::enter_case(|| format!("tree of depth {} with {} leaves: {}…", tree.depth(), tree.leaves(), tree.show().chars().take(120).collect::<String>()));
+    }
     acc.states += 1;
     acc.transitions += 1;
     acc.count("programs", 1);
